@@ -206,6 +206,13 @@ def build_node(rt, nd, prefix):
     if kind == "graph":
         inner = build_graph(rt, nd["sub"], path)
         gn = inner.as_node(name=nd["name"])
+        if nd.get("materialize"):
+            # ordinary use of the wrapper BEFORE it is renamed: reads, a default lookup, membership in a graph
+            _ = (gn.inputs, gn.outputs, gn.definition_hash, [gn.has_default_for(p) for p in gn.inputs], gn.map_inputs_to_params({p: 0 for p in gn.inputs}))
+            try:
+                Graph([gn])
+            except Exception:  # noqa: BLE001
+                pass
         rin = {i: o for o, i in nd["inmap"] if o != i}
         if rin:
             gn = gn.with_inputs(rin)
